@@ -79,6 +79,15 @@ def opD3 (L : Level) (vec : Bytes) (nilRecv : Bool) : String :=
     ++ " vq=" ++ (if L == .base then "-" else String.ofList ((levelsUpTo L).filter (· != L) |>.map fun _ => '1'))
     ++ (if e.isNone then flags3 L o vec else "")
 
+/-- `RD3`: the constructor result has been used for an earlier `Decode(pre)` (outcome ignored) -/
+def opRD3 (L : Level) (pre vec : Bytes) : String :=
+  let o0 := (V3.decode L V3.Obj3.new pre).1
+  let (o, e) := V3.decode L o0 vec
+  let head := s!"r={if e.isNone then "1" else "0"} e={errTag e}"
+  head ++ " " ++ dump3 L o ++ " q2=1"
+    ++ " vq=" ++ (if L == .base then "-" else String.ofList ((levelsUpTo L).filter (· != L) |>.map fun _ => '1'))
+    ++ (if e.isNone then flags3 L o vec else "")
+
 def dump2 (L : Level) (o : V2.Obj2) : String :=
   let ms := V2.msOf L
   let ls := levelsUpTo L
@@ -118,5 +127,13 @@ def opD2 (L : Level) (vec : Bytes) (nilRecv : Bool) : String :=
     ++ " vq=" ++ (if L == .base then "-" else String.ofList ((levelsUpTo L).filter (· != L) |>.map fun _ => '1'))
     ++ (if e.isNone then flags2 L o vec else "")
 
+
+def opRD2 (L : Level) (pre vec : Bytes) : String :=
+  let o0 := (V2.decode L V2.Obj2.new pre).1
+  let (o, e) := V2.decode L o0 vec
+  let head := s!"r={if e.isNone then "1" else "0"} e={errTag e}"
+  head ++ " " ++ dump2 L o ++ " q2=1"
+    ++ " vq=" ++ (if L == .base then "-" else String.ofList ((levelsUpTo L).filter (· != L) |>.map fun _ => '1'))
+    ++ (if e.isNone then flags2 L o vec else "")
 
 end Drv
